@@ -22,31 +22,35 @@ OPTSETS = {
 }
 
 _CTX: dict = {}
+SVC_OF: typing.Dict[str, pydsdl.ServiceType] = {}
 
 
-def corpus_entries(tier: str) -> typing.List[corpus.Entry]:
-    es = corpus.all_entries(common.seed(), 0 if tier == "quick" else 24)
+def corpus_entries(tier: str, metadata: bool = False) -> typing.List[corpus.Entry]:
+    es = corpus.all_entries(common.seed(), 0 if tier == "quick" else 24, metadata)
     if tier == "quick":
-        q = set(corpus.quick_names()) | {"In1", "In2", "InD", "InE", "U_prim"}
+        q = set(corpus.quick_names()) | {"In1", "In2", "InD", "InE", "U_prim"} | {e[0] for e in corpus._metadata()}
         es = [e for e in es if e[0] in q]
     return es
 
 
-def prepare(tier: str, root: pathlib.Path, optnames: typing.Sequence[str]) -> typing.Tuple[typing.List[pydsdl.CompositeType], dict]:
-    es = corpus_entries(tier)
+def prepare(tier: str, root: pathlib.Path, optnames: typing.Sequence[str], metadata: bool = False) -> typing.Tuple[typing.List[pydsdl.CompositeType], dict]:
+    es = corpus_entries(tier, metadata)
     ns = corpus.write(root / "dsdl", es)
-    types = pydsdl.read_namespace(str(ns), [])
+    types = pydsdl.read_namespace(str(ns), [], allow_unregulated_fixed_port_id=True)
     gens = {}
     for on in optnames:
         out = root / ("gen_" + on.replace("+", "_"))
-        build.nnvg("c", out, ns, opts=OPTSETS[on])
+        build.nnvg("c", out, ns, opts=OPTSETS[on], extra=["--allow-unregulated-fixed-port-id"])
         gens[on] = out
-    feats = {n: f for n, _, f in es}
+    feats = {n.split(".")[-1]: f for n, _, f in es}
     # services contribute their request and response types
     flat: typing.List[pydsdl.CompositeType] = []
+    SVC_OF.clear()
     for t in types:
         if isinstance(t, pydsdl.ServiceType):
             flat += [t.request_type, t.response_type]
+            SVC_OF[t.request_type.full_name] = t
+            SVC_OF[t.response_type.full_name] = t
         else:
             flat.append(t)
     _CTX.update(root=root, gens=gens, feats=feats)
@@ -75,6 +79,10 @@ def des_lengths(t: pydsdl.CompositeType, tier: str) -> typing.List[int]:
 def record(rep: common.Report, t: pydsdl.CompositeType, on: str, what: str, log: codec.QueryLog, tu: typing.Optional[codec.TypeUnit], wall: float,
            sample_p: float = 0.05) -> None:
     key = f"{on}:{t.full_name}:{what}"
+    slow = rep.extra.setdefault("slowest_runs", [])
+    slow.append((round(wall, 1), key, log.paths))
+    slow.sort(reverse=True)
+    del slow[12:]
     rep.paths += log.paths
     rep.solver_s += log.solver_s
     for n in log.notes:
